@@ -44,6 +44,9 @@ var localSnippets = []string{
 	`<% contentFor("side") { %>[side <%= s1 %>]<% } %><%= contentOf("side") %><%= contentOf("side", {s1: "override"}) %>`,
 	`<%= truncate(s3 + s3 + s3, {size: 7}) %><%= len(arr) %><%= toJSON(two) %><%= for (g) in groupBy(2, arr) { %><%= g %>|<% } %>`,
 	`<%= for (i) in range(1, 4) { %><%= i %><% } %><%= for (i) in until(3) { %><%= i %><% } %>`,
+	// operators whose right operand comes from the data and differs per execution (same result every time):
+	// anything the engine remembers across executions, keyed by such a value, is shared mutable state
+	`<%= s3 ~= fresh %>|<%= s3 == fresh %>|<%= for (w) in words { %><%= w ~= fresh %><% } %><%= truncate(fresh, {size: 2}) == fresh %>`,
 }
 
 func runExec(r *vk.Run, c ExecCase) *vk.Fail {
@@ -51,7 +54,11 @@ func runExec(r *vk.Run, c ExecCase) *vk.Fail {
 	defer r.Watch("exec", c)()
 	saved := plush.CacheEnabled
 	defer func() { plush.CacheEnabled = saved }()
-	mkCtx := func() *plush.Context { return progs.Context(progs.Data(), progs.Helpers(nil), c.Partials) }
+	mkCtx := func() *plush.Context {
+		d := progs.Data()
+		d["fresh"] = fmt.Sprintf("zz-%d-never-matches", atomic.AddInt64(&uniq, 1)) // a different string for every execution
+		return progs.Context(d, progs.Helpers(nil), c.Partials)
+	}
 	// sequential baseline
 	plush.CacheEnabled = false
 	base := vk.Safe(func() (string, error) { return plush.Render(c.Src, mkCtx()) })
@@ -286,7 +293,7 @@ func runCtx(r *vk.Run, c CtxCase) *vk.Fail {
 
 // ---- the test -----------------------------------------------------------------------------------------------
 
-const rule = "built with the Go race detector (halt on first report; the case noted last is the replay). (A) one parsed template executed from G in {2,4,8,16,32} goroutines x {own root context, child of one shared parent} x cache {off: the very same *Template and its Clones; cold; warm} x 3 rounds; templates: 7 fixed snippets exercising template-local arrays and hashes with index assignment, accumulating assignment in loops, contentFor/contentOf, built-in helpers and iterators, and random all-construct programs (shared generator, with partials and block helpers). Every concurrent result must equal the sequential result. (B) concurrent Parse+Exec / Render of 1-4 equal and different texts with the cache on (first goroutine cold, the rest warm). (C) 2-16 goroutines running random mixes of Set / Value / Has / New / New().Set / New().Value / Value(built-in) / Exec on a child, all on ONE shared context, with invariants on what they may observe. Non-trivial = G >= 2 and the template uses >= 3 kinds of construct (A), every B and C case; distinct by case."
+const rule = "built with the Go race detector (halt on first report; the case noted last is the replay). (A) one parsed template executed from G in {2,4,8,16,32} goroutines x {own root context, child of one shared parent} x cache {off: the very same *Template and its Clones; cold; warm} x 3 rounds; templates: 8 fixed snippets exercising template-local arrays and hashes with index assignment, accumulating assignment in loops, contentFor/contentOf, built-in helpers and iterators, operators (~=, ==) whose right operand is a data value that differs in every execution, and random all-construct programs (shared generator, with partials and block helpers). Every concurrent result must equal the sequential result. (B) concurrent Parse+Exec / Render of 1-4 equal and different texts with the cache on (first goroutine cold, the rest warm). (C) 2-16 goroutines running random mixes of Set / Value / Has / New / New().Set / New().Value / Value(built-in) / Exec on a child, all on ONE shared context, with invariants on what they may observe. Non-trivial = G >= 2 and the template uses >= 3 kinds of construct (A), every B and C case; distinct by case."
 
 func setup(t *testing.T) *vk.Run {
 	r := vk.Start(t, "C14", rule,
@@ -363,7 +370,7 @@ func TestProp(t *testing.T) {
 			}
 		}
 	}
-	r.Subspace("7 fixed snippets x G in {2,4,8,16,32} x 2 context modes x 3 cache modes", n, true)
+	r.Subspace("8 fixed snippets x G in {2,4,8,16,32} x 2 context modes x 3 cache modes", n, true)
 
 	// C: fixed heavy mixes
 	for _, g := range []int{2, 4, 8, 16} {
